@@ -203,7 +203,11 @@ func runC03(c *Ctx) {
 						}
 					}
 				}
-				construct := "stop-then-wait:" + p.FuncKey(f) + ":" + edge.name
+				role := "unordered-loop"
+				if f.Parent() != nil {
+					role = "ordered-goroutine"
+				}
+				construct := "stop-then-wait:" + role + ":" + edge.name
 				if bad == nil {
 					c.OK(rAwait, construct, p.InstrPos(in), "every path after the stop joins the completion wait")
 				} else {
@@ -315,7 +319,7 @@ func runC03(c *Ctx) {
 					ok = false
 				}
 			}
-			c.Check(ok, rAtomic, "critical-section:"+p.FuncKey(f), p.InstrPos(in), "stop-request state is re-read under stateMtx before the launch", "the critical section that sets the running status and launches does not re-check the stop request: refusal check and launch are separated by a lock release")
+			c.Check(ok, rAtomic, "critical-section:launcher", p.InstrPos(in), "stop-request state is re-read under stateMtx before the launch", "the critical section that sets the running status and launches does not re-check the stop request: refusal check and launch are separated by a lock release")
 		}
 	}
 	if nL == 0 {
@@ -332,7 +336,7 @@ func runC03(c *Ctx) {
 		d := p.Deep(shutState)
 		r := MustPrecede(g, d, func(in ssa.Instruction) bool { return isOneOf(in, runCalls) }, nil)
 		if r.OK {
-			c.OK(rAuto, "goroutine:"+p.FuncKey(g), FirstPos(p, g), "shutdown state read dominates the run entry")
+			c.OK(rAuto, "process-goroutine", FirstPos(p, g), "shutdown state read dominates the run entry")
 			continue
 		}
 		// alternatively every spawn call site is preceded
@@ -350,7 +354,7 @@ func runC03(c *Ctx) {
 		if off != nil {
 			pos = p.InstrPos(off)
 		}
-		c.Check(all, rAuto, "goroutine:"+p.FuncKey(g), pos, "every spawn site consults the shutdown state", "no project-level shutdown state is consulted between a shutdown request and the (automatic) launch of further processes: a shutdown during start-up is followed by launches")
+		c.Check(all, rAuto, "process-goroutine", pos, "every spawn site consults the shutdown state", "no project-level shutdown state is consulted between a shutdown request and the (automatic) launch of further processes: a shutdown during start-up is followed by launches")
 	}
 }
 
@@ -478,11 +482,15 @@ func (s *Sel) checkRunJoins(c *Ctx, ruleID string) {
 
 // checkShutdownExtras: rules added after the seeded-change round (see DESIGN.md section 12).
 func (s *Sel) checkShutdownExtras(c *Ctx) {
-	p := c.P
-	shut := s.shutdownFn()
-	st := p.ConstGroup("types", "ProcessState")
+	s.checkFailedShutdownCommandKills(c)
+	s.checkOrderedOrderComplete(c)
+	s.checkRefusalMatchesPendingStop(c, "refusal-matches-pending-stop")
+	s.checkDaemonRelease(c, "daemon-released-after-configured-stop")
+}
 
-	// (a) a failing shutdown command escalates to SIGKILL on every path
+// checkFailedShutdownCommandKills (C03, C06, C08): a failing shutdown command escalates to SIGKILL on every path.
+func (s *Sel) checkFailedShutdownCommandKills(c *Ctx) {
+	p := c.P
 	rKill := c.Rule("failed-shutdown-command-kills", "in the function that runs the configured shutdown command, every path on the command's error edge reaches Commander.Stop with the constant SIGKILL on Process.command (a command that could not be stopped gracefully is never left alive)")
 	n := 0
 	for _, f := range p.FuncsOfPkg("app") {
@@ -528,7 +536,12 @@ func (s *Sel) checkShutdownExtras(c *Ctx) {
 		c.Bad(rKill, "none", "", "the configured shutdown command is never run")
 	}
 
-	// (b) the ordered list contains every registered instance
+}
+
+// checkOrderedOrderComplete (C03, C06, C12): the ordered list contains every registered instance.
+func (s *Sel) checkOrderedOrderComplete(c *Ctx) {
+	p := c.P
+	shut := s.shutdownFn()
 	rAll := c.Rule("ordered-order-complete", "on the ordered branch of the shutdown function the list of instances is appended to directly in the callback of Project.WithProcesses called with an empty name list; the registry lookup key is the ReplicaName of the callback's parameter and the append is guarded by nothing but the success of that lookup (no process that is registered is left out, e.g. disabled or foreground ones started by hand)")
 	withProc := p.TryMethod("types", "Project", "WithProcesses")
 	okAll := false
@@ -588,9 +601,6 @@ func (s *Sel) checkShutdownExtras(c *Ctx) {
 		}
 	}
 	c.Check(okAll, rAll, p.FuncKey(shut), p.InstrPos(where), "every registered instance enters the ordered list", "the ordered shutdown list is not built by looking every process of the traversal up in runningProcesses (it goes through a filtered helper or an extra condition): a registered instance that the filter drops is neither stopped nor awaited, survives the shutdown and Run() hangs")
-
-	s.checkRefusalMatchesPendingStop(c, "refusal-matches-pending-stop")
-	_ = st
 }
 
 // checkRefusalMatchesPendingStop (C03, C08).
